@@ -1153,7 +1153,9 @@ class Interp:
             self.path.oblige(f"{name}:inv-init#{k}", "loop-inv-init", truthy(self.eval_spec(cl, ienv)), detail=cl)
         # havoc
         for var, d in inv.get("modifies", {}).items():
-            if "." in var:
+            if var.startswith("ghost:"):
+                self.ghost[var[6:]] = d.make(self, self.path.fresh(f"loop{ordinal}:{var}"))
+            elif "." in var:
                 self.havoc_path(var, d, env, name)
             else:
                 env.assign(var, d.make(self, self.path.fresh(f"loop{ordinal}:{var}")))
@@ -1185,6 +1187,8 @@ class Interp:
         ienv2.vars[idx_name] = SInt(i + 1)
         for k, cl in enumerate(inv["clauses"]):
             self.path.oblige(f"{name}:inv-step#{k}", "loop-inv-step", truthy(self.eval_spec(cl, ienv2)), detail=cl)
+        for k, cl in enumerate(inv.get("step_only", [])):
+            self.path.oblige(f"{name}:iteration-end#{k}", "loop-inv-step", truthy(self.eval_spec(cl, ienv2)), detail=cl)
         raise Abort()  # the arbitrary iteration is done; the continuation is covered by the exit branch
 
     def iterate_all(self, v, lazy_exc=False):
@@ -1570,9 +1574,22 @@ class Interp:
         if fenv is None:
             raise OutOfSubset("yield outside generator")
         fenv.gen_items.append(v)
+        self.on_yield(fenv, v)
         if fenv.yield_cb is not None:
             fenv.yield_cb(v)
         return None
+
+    def on_yield(self, fenv, v):
+        """Ghost monitor: the contract of the function under verification may update ghost state at each of its yields."""
+        if fenv.fn is None or fenv.fn.fq != self.top_target or self.depth != 0:
+            return
+        c = self.reg.get(self.top_target)
+        if c is None or not c.yield_effect:
+            return
+        e = Env(module=fenv.module)
+        e.vars["event"] = v
+        new = {g: self.eval_spec(cl, e) for g, cl in c.yield_effect.items()}
+        self.ghost.update(new)
 
     def e_YieldFrom(self, n, env):
         v = self.eval(n.value, env)
@@ -1587,6 +1604,7 @@ class Interp:
         items = self.iterate_all(v, lazy_exc=True)
         for x in items:
             fenv.gen_items.append(x)
+            self.on_yield(fenv, x)
             if fenv.yield_cb is not None:
                 fenv.yield_cb(x)
         if isinstance(items, _Items) and items.exc is not None:
@@ -1619,6 +1637,9 @@ class Interp:
             ok, v = self.class_attr(obj.cls, name)
             if ok:
                 return v
+            nm = self.reg.nominal_methods.get(obj.cls.qualname, {}).get(name)
+            if nm is not None:
+                return BuiltinFn(f"{obj.cls.name}.{name}", lambda it, a, k, _o=obj, _f=nm: _f(it, _o, a, k))
             if obj.cls.is_exception and name in ("__traceback__",):
                 return None
             if obj.cls.is_exception and name == "with_traceback":
